@@ -92,3 +92,15 @@ Definition after (src : source) (ops : list lookup_op) : cache :=
 
 Definition after_old (src : source) (ops : list lookup_op) : cache :=
   fold_left (fun c o => fst (do_op_old src c o)) ops [].
+
+(* ---- loading is not free: migration on first load draws from the UUID source (hunt2 C08 f1) ----
+   The UUID source of the session is a counter.  draws d = the number of UUIDs the migration of definition d takes when
+   it is read (0 for a definition stored at the current spec version; > 0 for spec < 13.4 with templating and for every
+   legacy definition).  enter_flow: a session looks flow u up and then takes the next UUID (for the child run); the
+   answer is (that UUID, the counter afterwards), None when the flow does not exist. *)
+Definition enter_flow (draws : fdef -> nat) (src : source) (c : cache) (u : nat) (ctr : nat) : option (nat * nat) :=
+  match snd (get src c u) with
+  | None => None
+  | Some d => let ctr' := match cached c u with Some _ => ctr | None => ctr + draws d end in
+              Some (ctr', S ctr')
+  end.
